@@ -62,7 +62,7 @@ Fixpoint raw_scan_loop (fuel : nat) (md : mods) (h : hir) (mem : list N) (max_nb
   match fuel with
   | O => acc
   | S f =>
-      if offset <? nlen mem then
+      if (offset <? nlen mem) && negb (max_nb <=? nlen acc) then
         match find_next_match_at (S (length mem)) md h mem offset with
         | None => acc
         | Some (s, e) =>
